@@ -97,7 +97,7 @@ def factory_obligations(chk, mod, fname, noop):
         if path.branch(d.has(key)):
             return d.get(key)
         return SV(build(node_unw(node.i), node_var(node.i), c.ident))
-    I.stubs[f"{mod}._get_unmarshaller"] = Stub("_get_unmarshaller", get_unm, None)
+    I.stubs[find_dispatcher(I.src, mod)] = Stub("_get_unmarshaller", get_unm, None)
 
     def havoc(I, path, env, k):
         c = env.lookup(env.find(lambda v: isinstance(v, Obj) and "$dict" in v.fields, "type context"))
@@ -155,11 +155,22 @@ def _factory_one(chk, func, pi, path, out, obls, cur):
     chk.add(Ob(func, "an-empty-graph-yields-the-no-op-routine", pid, hy + [n == 0], r == z3.Const("noop_routine", Val)))
 
 
+def find_dispatcher(src, mod):
+    """Qualified name of the function of `mod` that walks the handler table (`for check, cls in _HANDLERS.items()`)."""
+    import ast as _ast
+    for node in src.module(mod).body:
+        if isinstance(node, _ast.FunctionDef) and any(isinstance(l, _ast.For) and "_HANDLERS" in _ast.unparse(l.iter) for l in _ast.walk(node)):
+            return f"{mod}.{node.name}"
+    return f"{mod}._get_unmarshaller"
+
+
 def dispatcher_obligations(chk, mod):
     """_get_unmarshaller(node, context): reuses an existing binding of node.type; otherwise the first handler whose
     predicate accepts node.unwrapped constructs its class from node.unwrapped (never from node.type)."""
     I = install(Interp())
-    func = f"{mod}._get_unmarshaller"
+    real = find_dispatcher(I.src, mod)
+    func = f"{mod}.<handler-dispatch>"          # ledger key by role: the function's name is not part of the contract
+    chk.functions.add(real)
     st = {"cur": None}
     checks = z3.Function("handler_accepts", IntS, Val, BoolS)
 
@@ -215,7 +226,8 @@ def dispatcher_obligations(chk, mod):
     def inv(I, path, env, k):
         nd = st["cur"]["node"]
         return [Q([IntS], lambda j: z3.Implies(z3.And(j >= 0, j < k), z3.Not(checks(j, to_val(nd.fields["unwrapped"])))), name="earlier-handlers-declined")]
-    I.loop_specs[(func, 0)] = LoopSpec("handlers", lambda I, p, e, k: None, inv)
+    # (the handler loop is a first-match search: the engine reads it as such, in either of its spellings - return from the loop, or
+    #  remember the class and break; no loop contract is needed)
 
     def mk(I, path):
         path.assume(n_h >= 0)
@@ -224,7 +236,7 @@ def dispatcher_obligations(chk, mod):
         c = SDict.from_arrays(path.fresh("c_has", z3.ArraySort(Val, BoolS)), path.fresh("c_val", z3.ArraySort(Val, Val)))
         cur = st["cur"] = {"node": nd, "ctx": c}
         return [nd, c], {}, cur
-    results = I.run_function(func, mk)
+    results = I.run_function(real, mk)
     for pi, (path, out, obls, writes, cur) in enumerate(results):
         _dispatch_one(chk, func, pi, path, out, obls, cur, checks, n_h)
     chk.trusted.update(I.assumed_used)
@@ -258,8 +270,7 @@ def _dispatch_one(chk, func, pi, path, out, obls, cur, checks, n_h):
     goal = z3.And(z3.BoolVal(bool(ok_args)), to_val(args[0]) == unw if ok_args else z3.BoolVal(False),
                   to_val(kwargs["var"]) == var if ok_args else z3.BoolVal(False))
     if kind == "handler":
-        k = path.loop_k.get("handlers")
-        goal = z3.And(goal, checks(hi, unw), z3.BoolVal(k is not None)) if k is not None else z3.BoolVal(False)
+        goal = z3.And(goal, checks(hi, unw), hi >= 0, hi < n_h)
         first = Q([IntS], lambda j: z3.Implies(z3.And(j >= 0, j < hi), z3.Not(checks(j, unw))), name="first")
         chk.add(Ob(func, names[1], pid, hy, [goal, first]))
     else:
